@@ -34,6 +34,125 @@ pub fn new_rw(id: u8, val: u8) -> RW {
 	m
 }
 
+/// the thread's key flag: "a key is alive".  Under verification `ThreadKey::get`/`Drop` are the
+/// contract model; in the native replay of a counterexample (`cargo kani playback`, which builds
+/// with cfg(test)) Kani's stubs are not applied and the real thread-local key is in use.
+#[cfg(not(test))]
 pub fn key_flag() -> bool {
 	crate::key::verif_peek::model_flag()
+}
+#[cfg(test)]
+pub fn key_flag() -> bool {
+	crate::key::verif_peek::real_flag()
+}
+
+// ---- helpers over arrays of leaf ghost states -------------------------------------------------
+
+pub fn snaps<const N: usize>(st: &[&VState; N]) -> [Snap; N] {
+	let mut out = [Snap { mine: 0, other: 0 }; N];
+	let mut i = 0;
+	while i < N {
+		out[i] = st[i].snap();
+		i += 1;
+	}
+	out
+}
+
+pub fn all_other_free<const N: usize>(st: &[&VState; N]) -> bool {
+	let mut i = 0;
+	while i < N {
+		if st[i].other.get() != NONE {
+			return false;
+		}
+		i += 1;
+	}
+	true
+}
+
+pub fn no_other_excl<const N: usize>(st: &[&VState; N]) -> bool {
+	let mut i = 0;
+	while i < N {
+		if st[i].other.get() == EXCL {
+			return false;
+		}
+		i += 1;
+	}
+	true
+}
+
+/// every leaf is held by this thread, exactly once, exclusively
+pub fn all_mine_x<const N: usize>(st: &[&VState; N]) -> bool {
+	let mut i = 0;
+	while i < N {
+		if st[i].mine.get() != EXCL || st[i].acq_x.get() != st[i].rel_x.get() + 1 {
+			return false;
+		}
+		i += 1;
+	}
+	true
+}
+
+/// every leaf is held by this thread exactly once in shared mode (`excl_ok[i]`: leaf i is a
+/// Mutex, for which a read request is an exclusive hold)
+pub fn all_mine_s<const N: usize>(st: &[&VState; N], is_mutex: &[bool; N]) -> bool {
+	let mut i = 0;
+	while i < N {
+		if is_mutex[i] {
+			if st[i].mine.get() != EXCL {
+				return false;
+			}
+		} else if st[i].mine.get() != 1 || st[i].acq_s.get() != st[i].rel_s.get() + 1 {
+			return false;
+		}
+		i += 1;
+	}
+	true
+}
+
+pub fn none_mine<const N: usize>(st: &[&VState; N]) -> bool {
+	let mut i = 0;
+	while i < N {
+		if st[i].mine.get() != NONE {
+			return false;
+		}
+		i += 1;
+	}
+	true
+}
+
+/// hold state equals the snapshot
+pub fn same_as<const N: usize>(st: &[&VState; N], pre: &[Snap; N]) -> bool {
+	let mut i = 0;
+	while i < N {
+		if st[i].snap() != pre[i] {
+			return false;
+		}
+		i += 1;
+	}
+	true
+}
+
+/// C05: every acquisition matched by exactly one release in the same mode, nothing held
+pub fn all_balanced<const N: usize>(st: &[&VState; N]) -> bool {
+	let mut i = 0;
+	while i < N {
+		if !st[i].balanced_and_free() {
+			return false;
+		}
+		i += 1;
+	}
+	true
+}
+
+/// foreign holds are untouched by anything this thread does, except that a blocking
+/// acquisition waits until the conflicting foreign hold is gone
+pub fn others_same<const N: usize>(st: &[&VState; N], pre: &[Snap; N]) -> bool {
+	let mut i = 0;
+	while i < N {
+		if st[i].other.get() != pre[i].other {
+			return false;
+		}
+		i += 1;
+	}
+	true
 }
